@@ -477,7 +477,7 @@ func Main(prop string) {
 
 func run(c *enum.Ctx, prop string) {
 	if prop == "C08" {
-		c.Rule("alphabet '-ac' (gap first): every ordered pair of non-empty sequences of length <=3 over {a,c}; every 3x3 matrix with substitution entries in {-1,0,1} and the four gap entries in {0,-1}; gap-open in {0,-1,-2}; the six aligners (thorough: lengths <=4, substitution entries in {-2..2} on a sliced sub-grid, gap entries {0,-1,-2}, and the alphabet '-acg' with lengths <=2); oracle: the score of the RETURNED PATH recomputed from the letters equals the optimum of an independent reference DP (global / local / whole-query-ending-at-the-same-reference-position; affine: three-state with and without gap-to-gap transitions so that the two defect classes are told apart); non-trivial = cases whose optimal alignment contains at least one gap or mismatch")
+		c.Rule("alphabet '-ac' (gap first): every ordered pair of non-empty sequences of length <=3 over {a,c}; every 3x3 matrix with substitution entries in {-1,0,1} and the four gap entries in {0,-1}; gap-open in {0,-1,-2}; the six aligners; a third of the matrices reach the aligner in a matrix value that earlier alignments used with other contents (rewritten in place), a fifth embedded in a matrix two rows/columns larger than the alphabet (extra cells 55), and one goroutine sweeps every 7th matrix through a single matrix value, all aligners applied again after each rewrite (thorough: lengths <=4, substitution entries in {-2..2} on a sliced sub-grid, gap entries {0,-1,-2}, and the alphabet '-acg' with lengths <=2); oracle: the score of the RETURNED PATH recomputed from the letters equals the optimum of an independent reference DP (global / local / whole-query-ending-at-the-same-reference-position; affine: three-state with and without gap-to-gap transitions so that the two defect classes are told apart); non-trivial = cases whose optimal alignment contains at least one gap or mismatch")
 	} else {
 		c.Rule("every alignment produced in C08's space: monotone abutting path of equal-length blocks, one-sided gaps and empty zero-score pairs; global spans both sequences, local/fitted within bounds; per maximal run the reported scores equal the score recomputed from letters, matrix and gap parameters (gap-open once per run); plain and quality letters give identical pairs; align.Format gives two equal-length rows that reduce to the aligned sub-sequences; plus ill-typed calls (an illegal letter at every position of either sequence, distinct alphabet objects, mixed Letters/QLetters, nil alphabet, alphabet without leading gap, ragged / non-square / undersized / empty matrices) which must return an error and never panic; non-trivial = all")
 	}
